@@ -502,7 +502,7 @@ func scenC17Lo(run *vlab.Run, sx, tmp string) {
 		res := RunCase(sx, &CaseSpec{Args: args, Timeout: 60 * time.Second, Sniff: []string{"lo"}, Setup: func(w *World) {
 			mustSh("ip", "link", "set", "dev", "lo", "up")
 			if svcOn {
-				mustSh("ip", "addr", "add", svc, "dev", "lo")
+				mustSh("ip", "addr", "replace", svc, "dev", "lo")
 			}
 			w.AddTap("t0", "02:00:00:00:01:01", "10.20.0.5/24")
 			if withRoute {
